@@ -39,7 +39,7 @@ ASSUMPTIONS = common.BASE_ASSUMPTIONS + [
 REAL_VS_STUB = common.REAL_VS_STUB
 QUICK_RUNS = 36000
 EXPECTED_PROBES = {
-    t: ["fault_sub", "fault_ins", "fault_del", "fault_trunc", "fault_reseal", "accepted_well_formed_after_fault", "zero_length_frame_insertions", "rejected_UBXParseError", "valnone_cases", "stream_cases", "stale_length_valid_checksum", "checksum_field_values", "short_inputs"]
+    t: ["fault_sub", "fault_ins", "fault_del", "fault_trunc", "fault_reseal", "accepted_well_formed_after_fault", "zero_length_frame_insertions", "rejected_UBXParseError", "valnone_cases", "stream_cases", "stale_length_valid_checksum", "checksum_field_values", "short_inputs", "sync_field_values"]
     for t in ("quick", "thorough")
 }
 
@@ -242,6 +242,23 @@ def _sweep_unit(unit, res):
                 res.counters.hit("short_inputs", 36)
                 res.counters.hit("fault_trunc", 36)
         res.log(("short", unit["range"]), True)
+    elif what == "syncfield":
+        # every value of the two sync bytes (the checksum does not cover them)
+        note, frame = LADDER[unit["ladder"]]
+        hx = frame.hex()
+        for hi in range(unit["range"][0], unit["range"][1]):
+            for lo in range(256):
+                if (hi, lo) == (0xB5, 0x62):
+                    continue
+                x = bytes((hi, lo)) + frame[2:]
+                v = judge_datagram(x, 0, True)
+                res.evaluations += 1
+                res.counters.hit("sync_field_values")
+                res.counters.hit("fault_burst")
+                if v is not None and len(res.violations) < 4:
+                    fr = {"kind": "ubx", "hex": hx, "faults": [{"k": "burst", "pos": 0, "hex": bytes((hi, lo)).hex()}], "note": note}
+                    res.violations.append({"seed": 0, "mode": "datagram", "frames": [fr], "msgmode": 0, "from_valid": True, "clause": v[0], "detail": v[1]})
+        res.log(("syncfield", unit["ladder"], unit["range"]), True)
     elif what == "valnone":
         for a in range(256):
             for b in (frame[-1], (frame[-1] + 1) & 0xFF, 0x00, 0xFF):
@@ -350,6 +367,9 @@ def batches(tier, base_seed):
             yield [{"sweep": "sub", "basket": b, "range": [lo, lo + step]}]
     for lo in range(0, 256, 16 if tier != "selftest" else 256):
         yield [{"sweep": "short", "range": [lo, lo + 16 if tier != "selftest" else 2]}]
+    for lad in (0, 2) if tier != "selftest" else ():
+        for hi in range(0, 256, 32):
+            yield [{"sweep": "syncfield", "ladder": lad, "range": [hi, hi + 32]}]
     for lad in range(LADDER_N.get(tier, 5)):
         for hi in range(0, 256, 16):
             yield [{"sweep": "ckfield", "ladder": lad, "range": [hi, hi + 16]}]
